@@ -184,6 +184,8 @@ def enabled(ref, tier):
             ev.append(["set_axis_dict", d, alt])
             ev.append(["axes_setitem_name", d, alt])
             ev.append(["axes_setitem_pos", i, alt])
+            if fresh:     # the replacement Axis also carries another name: replace and rename in one step
+                ev.append(["axes_setitem_rename", d if i % 2 == 0 else i, alt, fresh[0]])
             if tier != "quick":
                 ev.append(["set_axis_list", i, alt])
                 ev.append(["set_axis_call", i, alt])
@@ -250,6 +252,9 @@ def apply_impl(ds, ev):
     elif k == "axes_setitem_pos":
         old = ds.axes[ev[1]]
         ds.axes[ev[1]] = Axis(np.array(_relabeled(py(old.values), ev[2]), dtype=object if isinstance(ev[2], str) else None), old.name)
+    elif k == "axes_setitem_rename":
+        old = ds.axes[ev[1]]
+        ds.axes[ev[1]] = Axis(np.array(_relabeled(py(old.values), ev[2]), dtype=object if isinstance(ev[2], str) else None), ev[3])
     elif k == "var_rename":
         ds[ev[1]].axes[ev[2]].name = ev[3]
     elif k == "var_relabel":
@@ -292,6 +297,10 @@ def apply_ref(ref, ev):
     elif k in ("set_axis_dict", "setattr_dim", "axes_setitem_name"):
         a = ref.ax(ev[1])
         a[1] = _relabeled(a[1], ev[2])
+    elif k == "axes_setitem_rename":
+        a = ref.ax(ev[1]) if isinstance(ev[1], str) else ref.axes[ev[1]]
+        a[1] = _relabeled(a[1], ev[2])
+        ref.rename(a[0], ev[3])
     elif k == "var_rename":
         ref.rename(ref.vars[ev[1]][0][ev[2]], ev[3])
     elif k == "var_relabel":
